@@ -7,6 +7,7 @@ from .. import explore, universe, observe, invariants
 from ..ref import doc as refdoc
 
 PROPERTY = "C05"
+HASHSEED_SLICE = True
 
 
 def model_apply(d, op):
@@ -200,6 +201,8 @@ def run(ctx):
     plan = [("c05.g1", 4), ("c05.g2", 4), ("c05.g1core", 5), ("c05.g2core", 5)]
   else:
     plan = [("c05.g1", 5), ("c05.g2", 5), ("c05.g1core", 7), ("c05.g2core", 7)]
+  if ctx.slice:
+    plan = [(n, max(2, d - 2)) for n, d in plan[:2]]
   done = {}
   for name, dpt in plan:
     done[name] = explore.bfs(ctx, explore.SPECS[name], dpt)[0]
